@@ -27,16 +27,31 @@ fn error_bounds<const B: Word>(
         // ties are rounded to the even significand (taken at full precision), so the bounds
         // belong to the interval iff the last digit of f at its precision is even
         let incl = !f.repr.significand.bit(0) || (B % 2 == 0 && f.repr.digits() < f.precision());
+
+        // on the side towards zero of a power of the base the tie lies between B^precision (f) and
+        // B^precision - 1 on the finer grid
+        let mut half_ulp_tz = half_ulp.clone();
+        let mut incl_tz = incl;
+        if is_power_of_base(f) {
+            half_ulp_tz.repr.exponent -= 1;
+            incl_tz = B % 2 == 0;
+        }
+        match f.repr.sign() {
+            Sign::Positive => (half_ulp_tz, half_ulp, incl_tz, incl),
+            Sign::Negative => (half_ulp, half_ulp_tz, incl, incl_tz),
+        }
         /*@ proof {
             let (b, sig, exp, p) = (B as int, f.repr.significand.v(), f.repr.exponent as int, f.context.precision as int);
             let d = ndigits(b, sig) as int;
+            let pw = eb_pow(sig);
+            let g = eb_g(b, sig);
             let m = sig * ipow(b, (p - d) as nat);
             lemma_grid_sig(b, sig, (p - d) as nat);
-            lemma_half_units(b, exp + d - p);
-            lemma_eb_table(Mode::HalfEven, m);
+            lemma_half_units(b, exp + d - p, pw);
+            lemma_eb_table(Mode::HalfEven, m, g);
             lemma_grid_parity(b, sig, (p - d) as nat);
-            let t = eb_table(Mode::HalfEven, m);
-            assert(eb_exact(Mode::HalfEven, m, 1, 1, incl, incl));
+            lemma_fine_parity(b, m, pw);
+            let t = eb_table(Mode::HalfEven, m, g);
+            assert(eb_exact(Mode::HalfEven, m, g, t.0, t.1, ret.2, ret.3));
         } @*/
-        (half_ulp.clone(), half_ulp, incl, incl)
     }
